@@ -19,6 +19,11 @@ fn follow_up(r: &mut Prng, case: &mut Case) {
     let slot = 0;
     let funcs: Vec<String> = case.slots[slot].funcs.iter().map(|(n, _)| n.clone()).collect();
     let mut post = vec![];
+    if case.tag == "C15-same-thread" {
+        let hn = case.add_handler(HandlerSpec::plain(HKind::Infix, Ret::Marker));
+        post.push(Op::OnThread { ops: vec![Op::RegIn { name: "st_op".into(), prec: 105, setter: false, right: false, h: hn }] });
+        post.push(Op::Exec { prog: Prog::one(bin("st_op", lit_i(3), lit_i(4))), ctx: CtxRef::Slot(slot) });
+    }
     for n in ["x", "y"] {
         post.push(Op::CtxGetVar { slot, name: n.into() });
     }
@@ -128,6 +133,15 @@ pub fn gen_case(r: &mut Prng, big: bool) -> Case {
         // the faulted evaluation stays on the main task: the follow-up then runs on the SAME thread
         // (whatever a failed evaluation leaves behind in its own thread shows there)
         case.tag = "C15-same-thread".into();
+        // an operator of the harness is applied first in the faulted program; the follow-up has ANOTHER
+        // thread re-register it and this thread apply it again as its very first evaluation after the failure
+        let hs = case.add_handler(HandlerSpec::plain(HKind::Infix, Ret::Marker));
+        case.pre.insert(0, Op::RegIn { name: "st_op".into(), prec: 105, setter: false, right: false, h: hs });
+        for o in case.pre.iter_mut() {
+            if let Op::Exec { prog: Prog::Stmts(st), .. } | Op::ParseExec { prog: Prog::Stmts(st), .. } = o {
+                st.insert(0, bin("st_op", lit_i(1), lit_i(2)));
+            }
+        }
     } else {
         // move the evaluation into simulated thread 0 (= task 1); registrations stay in `pre`
         let eval = case.pre.pop().unwrap();
